@@ -68,7 +68,7 @@ def op_strategy():
     anyname = st.one_of(vname, vname, vname, vname, iname)
     val = st.one_of(st.integers(0, 9), st.integers(0, 9), st.none(), st.sampled_from(["s", ""]))
     elem = st.one_of(st.integers(0, 9), st.integers(0, 9), st.none())
-    form = st.sampled_from(["kw", "dict", "pairs"])
+    form = st.sampled_from(["kw", "dict", "pairs", "mixed", "mixeddict"])
     multi = st.lists(st.tuples(vname, val).map(list), min_size=1, max_size=3)
     single_bad = st.tuples(iname, val).map(lambda kv: [list(kv)])
     items = st.one_of(multi, multi, multi, multi, single_bad)
@@ -122,6 +122,11 @@ def _call_fielded(method, form, items):
         return method(**dict(pairs))
     if form == "dict":
         return method(dict(pairs))
+    if form in ("mixed", "mixeddict"):
+        # one call with a positional argument AND keyword arguments (positional fields first, keywords last)
+        h = max(1, len(pairs) // 2)
+        head = dict(pairs[:h]) if form == "mixeddict" else pairs[:h]
+        return method(head, **dict(pairs[h:]))
     return method(pairs)
 
 
@@ -208,6 +213,12 @@ def run_case(case):
                 added = False
                 seen = dict(items) if op["form"] in ("kw", "dict") else None
                 seq = list(seen.items()) if seen is not None else items
+                if op["form"] in ("mixed", "mixeddict"):
+                    h = max(1, len(items) // 2)
+                    head = list(dict(items[:h]).items()) if op["form"] == "mixeddict" else items[:h]
+                    seq = head + list(dict(items[h:]).items())
+                    if len(items) > h:
+                        labels.add("positional+keyword-call")
                 for k, v in seq:
                     if name == "create":
                         if k not in fields:
